@@ -45,18 +45,26 @@ class TConst(T):
 # ---------------------------------------------------------------------------- operands
 # vector-valued operand: f(x) in R^m (rank 1), Df(x) in R^{m x n};  number-valued operand: f(x) a float, Df(x) in R^n
 def fun(name, vec):
+    if vec == "row":  # number-valued function whose Jacobian is a (1, n) matrix
+        return TFun(f"c10_{name}r", [F1], TReal), TFun(f"c10_D{name}r", [F1], F2)
     return TFun(f"c10_{name}", [F1], F1 if vec else TReal), TFun(f"c10_D{name}", [F1], F2 if vec else F1)
 
 
+def kind(vec):
+    return "r" if vec == "row" else ("v" if vec else "s")
+
+
 def z3fun(name, vec):
+    if vec == "row":
+        return z3.Function(f"c10_{name}r", F1.sort(), z3.RealSort()), z3.Function(f"c10_D{name}r", F1.sort(), F2.sort())
     return (z3.Function(f"c10_{name}", F1.sort(), F1.sort() if vec else z3.RealSort()),
             z3.Function(f"c10_D{name}", F1.sort(), F2.sort() if vec else F1.sort()))
 
 
 for _n in ("f", "g"):
-    for _vec in (True, False):
+    for _vec in (True, False, "row"):
         _fn, _jac = fun(_n, _vec)
-        schema(f"{MDOF}#{_n}{'v' if _vec else 's'}", {"_func": _fn, "_jac": _jac})
+        schema(f"{MDOF}#{_n}{kind(_vec)}", {"_func": _fn, "_jac": _jac})
 
 
 class Operand:
@@ -68,15 +76,17 @@ class Operand:
         f, df = z3fun(name, vec)
         self.fx, self.dfx = f(xt), df(xt)
         self.n = x.obj.shape[0]
-        self.m = F1.dim(self.fx) if vec else z3.IntVal(1)
+        self.m = F1.dim(self.fx) if vec is True else z3.IntVal(1)
 
     def value(self, i):
-        return F1.els(self.fx)[i] if self.vec else self.fx
+        return F1.els(self.fx)[i] if self.vec is True else self.fx
 
     def jac(self, i, j):
         return z3.Select(F2.els(self.dfx), i, j) if self.vec else F1.els(self.dfx)[j]
 
     def shape_facts(self, label):
+        if self.vec == "row":
+            return [(f"{label}-jacobian-shape-(1,n)", z3.And(F2.dim(self.dfx, 0) == 1, F2.dim(self.dfx, 1) == self.n))]
         if self.vec:
             return [(f"{label}-jacobian-shape-(m,n)", z3.And(F2.dim(self.dfx, 0) == self.m, F2.dim(self.dfx, 1) == self.n)), (f"{label}-output-dimension>=1", self.m >= 1)]
         return [(f"{label}-gradient-shape-(n,)", F1.dim(self.dfx) == self.n)]
@@ -91,10 +101,10 @@ SECOND = {"fun": None, "num": TReal, "vec": F1}
 def maker_schema(cls, op, first_vec, second, second_vec=None):
     """Schema variant of a function maker: the flags are those __init__ computes from the type of the second operand
     (_operations.py lines 80-83: isinstance(second_operand, (Number, ndarray)) / isinstance(second_operand, cls))."""
-    key = f"{cls}#{op}-{'v' if first_vec else 's'}-{second}{'' if second != 'fun' else ('v' if second_vec else 's')}"
+    key = f"{cls}#{op}-{kind(first_vec)}-{second}{'' if second != 'fun' else kind(second_vec)}"
     fields = {
-        "_first_operand": TObj(MDOF, schema_key=f"{MDOF}#f{'v' if first_vec else 's'}"),
-        "_second_operand": TObj(MDOF, schema_key=f"{MDOF}#g{'v' if second_vec else 's'}") if second == "fun" else SECOND[second],
+        "_first_operand": TObj(MDOF, schema_key=f"{MDOF}#f{kind(first_vec)}"),
+        "_second_operand": TObj(MDOF, schema_key=f"{MDOF}#g{kind(second_vec)}") if second == "fun" else SECOND[second],
         "_second_operand_is_number": TConst(second != "fun"),
         "_second_operand_is_func": TConst(second == "fun"),
         "_operator": TBuiltin(OPERATORS[op][0]),
@@ -140,7 +150,7 @@ class _Op(Contract):
         out = f.shape_facts("first")
         if g is not None:
             out += g.shape_facts("second")
-            if self.first_vec and self.second_vec:
+            if self.first_vec is True and self.second_vec is True:
                 out.append(("same-output-dimension", f.m == g.m))  # both built with dim = first_operand.dim
         if self.second == "vec":
             out.append(("vector-operand-has-the-output-dimension", ln(c.old.self._second_operand) == f.m))
@@ -148,7 +158,7 @@ class _Op(Contract):
 
     def tagged(self, clauses):
         """Clause labels carry the typed variant (reports group obligations by function and label)."""
-        tag = f"{self.op},{'vector' if self.first_vec else 'number'}-f,{self.second}"
+        tag = f"{self.op},{KIND_NAME[kind(self.first_vec)]}-f,{self.second}"
         return [(f"{lab}[{tag}]", f) for lab, f in clauses]
 
     def operands_unchanged(self, c):
@@ -176,8 +186,11 @@ def _register_variants():
 VARIANTS = _register_variants()
 
 
+KIND_NAME = {"v": "vector", "s": "number", "r": "number-with-(1,n)-jacobian"}
+
+
 def vname(op, first_vec, second, second_vec):
-    return f"{op}:{'vector' if first_vec else 'number'}-valued-f,{ {'fun': 'function', 'num': 'number', 'vec': 'vector'}[second]}"
+    return f"{op}:{KIND_NAME[kind(first_vec)]}-valued-f,{ {'fun': 'function', 'num': 'number', 'vec': 'vector'}[second]}"
 
 
 # ---------------------------------------------------------------------------- value of the operation
@@ -209,6 +222,9 @@ def jac_clauses(self, c, f, entry):
     """Shape and entries of the returned Jacobian: (m, n) matrix for a vector-valued f, (n,) gradient for a number-valued one."""
     r = c.result
     i, j = z3.Int("i!jc"), z3.Int("j!jc")
+    rank = getattr(getattr(r, "obj", None), "rank", None)
+    if rank != (2 if self.first_vec else 1):
+        return [("matrix-(m,n)" if self.first_vec else "gradient-(n,)", z3.BoolVal(False))]  # the returned array has the wrong number of dimensions
     if self.first_vec:
         return [("shape-(m,n)", z3.And(ln(r, 0) == f.m, ln(r, 1) == f.n)),
                 ("entries", z3.ForAll([i, j], z3.Implies(z3.And(0 <= i, i < f.m, 0 <= j, j < f.n), el(r, i, j) == entry(i, j))))]
@@ -238,7 +254,7 @@ for _op, _fop, _fv, _sec, _sv in VARIANTS:
 
 
 # ---------------------------------------------------------------------------- Jacobian of the product / quotient
-for _op, _fop, _fv, _sec, _sv in VARIANTS:
+for _op, _fop, _fv, _sec, _sv in VARIANTS + [(o, OPERATORS[o][2], "row", "fun", "row") for o in ("mul", "div")]:
     if _op not in ("mul", "div"):
         continue
 
@@ -251,10 +267,6 @@ for _op, _fop, _fv, _sec, _sv in VARIANTS:
         op, fop, first_vec, second, second_vec = _op, staticmethod(_fop), _fv, _sec, _sv
         self_schema = maker_schema(MUL, _op, _fv, _sec, _sv)
         returns = F2 if _fv else F1
-
-        def finding_regions(self, c):
-            x, f, g = self.operands(c)
-            return {"output-dimension-greater-than-1": f.m > 1}
 
         def ensures(self, c):
             x, f, g = self.operands(c)
@@ -857,6 +869,7 @@ class _Lin(Contract):
     self_schema = LIN + "#num"
     modifies = ()
     psum_definition = False
+    inline_ok = True  # callers (MDOLinearFunction.normalize, verified in contracts/c01_preprocessing.py) keep inlining the real body
 
     def requires(self, c):
         s = c.old.self
